@@ -410,8 +410,29 @@ func (e *Engine) call(fn *ssa.Function, s *St, in *ssa.Call, ip int) (next []suc
 		return set(IntV{I(42)}) // netmode.UnitTestNet, the magic of the replay chain
 	case ipfx + "runtime.GetTime":
 		return set(IntV{e.txTime})
-	case ipfx + "runtime.BurnGas":
-		return set(UnitV{})
+	case ipfx + "runtime.BurnGas": // metering is not modelled, but neo-go faults on a non-positive amount ("GAS must be positive")
+		g, isInt := args[0].(IntV)
+		if !isInt {
+			return nil, []Out{{s.State, true, constBytes("BurnGas: not an integer")}}, false
+		}
+		z := Le(g.t, I(0))
+		if z.isC() {
+			if z.b {
+				return nil, []Out{{s.State, true, constBytes("GAS must be positive")}}, false
+			}
+			return set(UnitV{})
+		}
+		if !e.feasible(s.State, z) {
+			return set(UnitV{})
+		}
+		if !e.feasible(s.State, Not(z)) {
+			return nil, []Out{{s.State, true, constBytes("GAS must be positive")}}, false
+		}
+		faulted := s.fork(z)
+		s.State.pc = And(s.pc, Not(z))
+		s.env[in] = UnitV{}
+		st := &St{State: s.State, blk: s.blk, ip: ip + 1, env: s.env}
+		return []succ{{st, nil}}, []Out{{faulted, true, constBytes("GAS must be positive")}}, false
 	case ipfx + "native/management.GetContract":
 		return set(NullV{}) // no test account is a contract
 	case ipfx + "native/crypto.Ripemd160", ipfx + "native/crypto.Sha256":
